@@ -3,6 +3,8 @@ import SoyVerif.Model.Escape
 import SoyVerif.Model.Directives
 import SoyVerif.Spec.Html
 import SoyVerif.Spec.Percent
+import SoyVerif.Spec.JsString
+import SoyVerif.Model.JsEscape2
 
 /-
   Protocol operations of the escaping / print-directive area (C03, C16):
@@ -59,6 +61,13 @@ def ops : List Op := [
   ("htmlesc", with1 fun b => okBytes (htmlEscape b)),
   ("gohtmlesc", with1 fun b => okBytes (goHtmlEscape b)),
   ("jsesc", with1 fun b => okBytes (jsEscape b)),
+  ("jsesc2", with1 fun b => okBytes (jsEscapeFixed b)),
+  ("jsrt2", with1 fun b => match Spec.jsUnescape (jsEscapeFixed b) with
+    | some r => okBytes r
+    | none => "ERR"),
+  ("spec-jsunesc", with1 fun b => match Spec.jsUnescape b with
+    | some r => okBytes r
+    | none => "ERR"),
   ("queryesc", with1 fun b => okBytes (queryEscape b)),
   ("jsonstr", with1 fun b => okBytes (jsonString b)),
   ("spec-htmlunesc", with1 fun b => okBytes (Spec.htmlUnescape b)),
